@@ -3,6 +3,45 @@ import json, os
 V = os.path.dirname(os.path.dirname(os.path.abspath(__file__)))
 props = [json.loads(l)["id"] for l in open(os.path.join(V, "properties.jsonl"))]
 CHECKS = {
+ "C09": dict(
+   text="Coq theorems (Props/C09.v; proofs Fs/FsProofsCache.v) over the state machine Fs/Cache.v of edits (write, delete, "
+        "rename, touch, swap), exclusion changes, cache replacement by another version / with altered entries, dropped "
+        "entries, damage, and scans: the invariant 'every entry of a usable cache is the analysis of the content with that "
+        "checksum under the language of that path name' holds initially and is preserved by every operation, hence for EVERY "
+        "finite history every scan equals the from-scratch scan of the file system at that moment (files, order, checksums, "
+        "languages, results); a result is reused only for an unchanged path and content from a same-version cache; a cache of "
+        "another version is never used.  Tie: all single operations and sampled pairs/triples after a populated scan plus "
+        "random histories on a real temp directory through scan_command, each scan compared with scan_command on a "
+        "cache-free copy and with the Coq machine (entries + which files were analysed).",
+   note="Trusted: Coq kernel; analysis and file-name->language map as oracles (deterministic: C06), md5 injective on the contents "
+        "used; hand model of scan_command/_scan_file (tie H); translator for tool_version.",
+   technique="Rocq proof (inductive invariant over operation histories, refinement to the fresh scan) + real-directory history replay",
+   ref="DESIGN.md section 5, C09"),
+ "C10": dict(
+   text="Coq theorems (Props/C10.v): with a missing, garbage (ANY non-report content: every truncation is one) or other-version "
+        "cache the scan completes, equals the fresh scan, analyses every file and leaves the complete fresh report as cache; "
+        "after any scan the cache is complete and good; no sequence of faults interleaved with edits and scans leaves a bad "
+        "state.  Because every possible content is covered, no atomicity of the OS write is assumed.  The implementation side "
+        "(that every damaged content is indeed rejected by the reader) is explored: the written cache cut at every byte "
+        "offset, every key removed at every level, seven wrong types at every position, structural faults, fault sequences.",
+   note="Trusted: Coq kernel; the classification 'not a well-shaped report => CGarbage' is established for the implementation by "
+        "the exhaustive truncation / tampering sweep, not proved; OS-level failures (ENOSPC during the NEW write) are outside.",
+   technique="Rocq proof over the cache state machine + exhaustive byte-offset truncation and structural-fault sweep on real directories",
+   ref="DESIGN.md section 5, C10"),
+ "C11": dict(
+   text="Coq theorems (Props/C11.v; proofs Fs/FsProofsWalk.v): for every directory tree, exclusion list and cache, a path "
+        "appears in the scan result iff a file exists there, none of its components is hidden, it is not excluded and its "
+        "name maps to a supported language; the entry is keyed by that path with the file's checksum and (fresh) the analysis "
+        "of its content; paths are duplicate-free for well-formed trees; deleting, inserting or changing any file that does "
+        "not qualify leaves the result unchanged and the analysis oracle is only consulted on qualifying files.  The "
+        "exclusion matcher for the five gitignore pattern classes is a Gallina function compared with pathspec on every case; "
+        "trees x exclusions (config, .gitignore) x three root spellings run through the real scan_path with a recording "
+        "wrapper.",
+   note="Trusted: Coq kernel; pathspec and get_lexer_for_filename as oracles (recomputed per case); Path.absolute/resolve/"
+        "relpath behaviour for the three root spellings is exercised, not modelled.",
+   technique="Rocq proof (induction over directory trees) + differential runs against pathspec and scan_path",
+   ref="DESIGN.md section 5, C11"),
+
  "C07": dict(
    text="Coq theorems (Props/C07.v, 10; proofs Agg/CodebaseProofs*.v ~2000 lines) over the model of Codebase.add_file / "
         "add_folder / aggregate with leaves re-translated from source: for every list of file entries with distinct well-formed "
